@@ -1878,6 +1878,8 @@ class Exec:
             if name == "is_frozen":
                 return VBool(obj.frozen_flag)
             return VBound(obj, name)
+        if isinstance(obj, VView) and name == "__class__":
+            return obj  # only used as `self.__class__.from_view(self, ...)`: the classmethod is reached through the view object
         if isinstance(obj, VView) and name in self.VIEW_FIELDS:
             # fields installed by IDView.__init__ (aliases of the network's tables; the whole-network view has `_ids is _id_dict`)
             own, other = ("_node", "_edge") if obj.which == "nodes" else ("_edge", "_node")
